@@ -278,7 +278,25 @@ def make_stock(fd, cfg, cls_name, solver=None, lm=None, inflow=None, stock=None)
         for q_ in ("stock", "inflow", "outflow"):
             if q_ not in kw and not (cls_name == "SimpleFlowDrivenStock" and q_ == "outflow"):
                 kw[q_] = fd.StockArray(dims=dims, values=_as_given(np.full(cfg["shape"], 7.0), cfg["layout"]))
-    return cls(**kw)
+    s_new = cls(**kw)
+    if lm is None and cfg.get("layout", "C") == "C":
+        # the stock the user goes on with is sometimes a copy of the one that was built (a pickle round trip as after multiprocessing,
+        # a deep copy as in a scenario loop): it is a stock of its own with the same data and settings
+        how = (len(cfg["items"]) * 7 + len(cfg["model"])) % 9
+        try:
+            if how == 2:
+                import pickle
+
+                s_new = pickle.loads(pickle.dumps(s_new))
+            elif how == 5:
+                import copy
+
+                s_new = copy.deepcopy(s_new)
+            elif how == 7:
+                s_new = s_new.model_copy(deep=True)
+        except Exception:
+            pass
+    return s_new
 
 
 def _as_given(v, layout=None):
